@@ -164,12 +164,29 @@ func runC11(k int, rng *Rng) CaseResult {
 	if w.failed() {
 		return w.finish(w.absOps, false, nil)
 	}
-	// healthy database: no false positive, before and after Close
+	// healthy database: no false positive, before and after Close. Writes that are still pending
+	// are no divergence: their objects are stored as far as every read is concerned, and a Repair
+	// has nothing to drop
 	var err error
 	w.call("Control", func() { err = w.db.Control() })
-	if err != nil && cfg.Async == 0 {
-		w.fail("control-false-positive", "Control", "-", err.Error())
+	if err != nil {
+		w.fail("control-false-positive", "Control", map[bool]string{true: "pending-writes", false: "-"}[cfg.Async != 0], err.Error())
 		return w.finish(w.absOps, false, nil)
+	}
+	if cfg.Async != 0 && rng.P(0.5) {
+		w.call("Repair", func() { err = w.db.Repair(&Rec{}) })
+		if err != nil {
+			w.fail("repair-error", "Repair", "healthy-pending-writes", err.Error())
+			return w.finish(w.absOps, false, nil)
+		}
+		w.abs("repair-healthy")
+		w.ReadSweep()
+		if !w.failed() {
+			w.SearchSweep(15)
+		}
+		if w.failed() {
+			return w.finish(w.absOps, false, nil)
+		}
 	}
 	w.call("Close", func() { err = w.db.Close() })
 	if err != nil {
